@@ -147,7 +147,9 @@ def run_spec(spec, knobs, choices=None, poll=True, drain_virtual=40.0,
                 run.outcome, run.value = 'horizon', str(exc)
             except asyncio.CancelledError as exc:
                 run.outcome, run.value = 'exc', exc
-            except Exception as exc:                    # pylint: disable=W0703
+            except (KeyboardInterrupt, SystemExit, GeneratorExit):
+                raise
+            except BaseException as exc:                # pylint: disable=W0703
                 run.outcome, run.value = 'exc', exc
             run.t_end = loop._now
             loop.on_quiescent = None
